@@ -1,4 +1,4 @@
-import Poulpy.Lemmas.BytesWrap
+import Poulpy.Lemmas.BytesReaders
 /-!
 # C18 — serialisation round-trips, and rejects damaged input without corruption
 
@@ -45,15 +45,7 @@ theorem vec_read_rejects_oversized_capacity :
 def VecWF (x : VecZnx) : Prop :=
   x.n < 2 ^ 64 ∧ x.cols < 2 ^ 64 ∧ x.size < 2 ^ 64 ∧ x.maxSize < 2 ^ 64 ∧ x.n * x.cols < 2 ^ 64 ∧ x.data.length < 2 ^ 64
 
-theorem readU64_le {σ β : Type} (v : Nat) (h : v < 2 ^ 64) (f : Nat → Rd σ β) (s : σ) (rest : Bytes) :
-    (readU64 >>= f) s (leBytes 8 v ++ rest) = f v s rest := by
-  have hl : ¬ (leBytes 8 v ++ rest).length < 8 := by simp [leBytes_length]
-  rw [readU64_bind, take8_le v rest h, drop8_le, if_neg hl]
 
-theorem readU32_le {σ β : Type} (v : Nat) (h : v < 2 ^ 32) (f : Nat → Rd σ β) (s : σ) (rest : Bytes) :
-    (readU32 >>= f) s (leBytes 4 v ++ rest) = f v s rest := by
-  have hl : ¬ (leBytes 4 v ++ rest).length < 4 := by simp [leBytes_length]
-  rw [readU32_bind, take4_le v rest h, drop4_le, if_neg hl]
 
 /-- round trip: every well-formed object satisfying the invariant is written without error (in both
 build profiles) and read back — dimensions and the `n·cols·size·8` active bytes — by any receiver whose
@@ -154,25 +146,7 @@ example : MatZnx.readFrom ⟨0, 0, 0, 0, 0, List.replicate 8 9⟩
 
 /-! ## Part 2 — `Distribution` -/
 
-theorem or_add (t pl : Nat) (h : pl < 2 ^ 56) : t * 2 ^ 56 ||| pl = t * 2 ^ 56 + pl := by
-  rw [Nat.mul_comm]; exact (Nat.two_pow_add_eq_or_of_lt h t).symm
 
-/-- `Distribution::read_from` on a stream starting with the word `w` -/
-theorem readDist_eval (w : Nat) (hw : w < 2 ^ 64) (tail : Bytes) :
-    readDistAt 0 ⟨[9, 9], [], [], 0⟩ (leBytes 8 w ++ tail) =
-      (if w / 2 ^ 56 = 0 ∨ w / 2 ^ 56 = 2 ∨ w / 2 ^ 56 = 4 then (.ok () ⟨[w / 2 ^ 56, w % 2 ^ 56], [], [], 0⟩ tail : Res St Unit)
-       else if w / 2 ^ 56 = 1 ∨ w / 2 ^ 56 = 3 then .ok () ⟨[w / 2 ^ 56, w % 2 ^ 56 * 256 % 2 ^ 64], [], [], 0⟩ tail
-       else if w / 2 ^ 56 = 5 ∨ w / 2 ^ 56 = 6 then .ok () ⟨[w / 2 ^ 56, 0], [], [], 0⟩ tail
-       else .err "invalid" ⟨[9, 9], [], [], 0⟩) := by
-  unfold readDistAt
-  rw [readU64_le w hw]
-  by_cases h0 : w / 2 ^ 56 = 0 ∨ w / 2 ^ 56 = 2 ∨ w / 2 ^ 56 = 4
-  · simp only [h0, if_true]; rfl
-  · by_cases h1 : w / 2 ^ 56 = 1 ∨ w / 2 ^ 56 = 3
-    · simp only [h0, h1, if_true, if_false]; rfl
-    · by_cases h5 : w / 2 ^ 56 = 5 ∨ w / 2 ^ 56 = 6
-      · simp only [h0, h1, h5, if_true, if_false]; rfl
-      · simp only [h0, h1, h5, if_false]; rfl
 
 /-- the 64-bit word written for `(tag, payload)` and read back gives the same `(tag, payload)` when the
 `usize` of a fixed variant is below 2^56 and the `f64` of a probabilistic variant has its low mantissa
@@ -218,6 +192,143 @@ theorem dist_round_trip_counterexample :
   intro h
   have := h 1 4599075939470750515 (by decide) (by decide) []
   revert this
+  decide +kernel
+
+/-! ## Part 3 — the wrapper readers
+
+`Keep L M s`: every HAL leaf of the flat state satisfies its invariant, the leaf buffer lengths are `L`,
+the allocation limit is `M`.  `St.meta` = wrapper fields, seeds and leaf dimensions. -/
+
+section
+variable {L : List Nat} {M : Nat}
+
+
+
+attribute [local irreducible] readVecAt readScalarAt readMatAt rGLWE rGGLWE rGLWESwitchingKey rGLWEAutomorphismKey
+  rGLWEPublicKey rGGLWEToGGSWKey rGLWECompressed rGGLWECompressed rGLWESwitchingKeyCompressed
+  rGLWEAutomorphismKeyCompressed rGGLWEToGGSWKeyCompressed rBlindRotationKey rBlindRotationKeyCompressed in
+/-- **post-state invariant, every modelled type, every byte string, either outcome**: if the receiver's
+leaves were consistent with their buffers before `read_from`, they are afterwards (ok, err alike), no
+buffer changes length. -/
+theorem reader_post_inv (ty : String) (r : Rd St Unit) (h : readerOf ty = some r) : Pres (Keep L M) r := by
+  unfold readerOf at h
+  split at h <;> cases h <;> (first
+    | exact pres_readVecAt _ | exact pres_readScalarAt _ | exact pres_readMatAt _
+    | exact pres_rGLWE _ | exact pres_rGGLWE _ | exact pres_rGLWESwitchingKey _ | exact pres_rGLWEAutomorphismKey _
+    | exact pres_rGLWEPublicKey _ | exact pres_rGGLWEToGGSWKey _ | exact pres_rGLWECompressed _
+    | exact pres_rGGLWECompressed _ | exact pres_rGLWESwitchingKeyCompressed _ | exact pres_rGLWEAutomorphismKeyCompressed _
+    | exact pres_rGGLWEToGGSWKeyCompressed _ | exact pres_rBlindRotationKey _ | exact pres_rBlindRotationKeyCompressed _)
+example : Keep [64] (2 ^ 40) ⟨[12], [], [.vec ⟨4, 2, 1, 1, List.replicate 64 0⟩], 2 ^ 40⟩ ∧ (readerOf "glwe").isSome = true := by
+  refine ⟨⟨by decide, by decide, rfl⟩, by decide⟩
+
+
+
+attribute [local irreducible] readVecAt readScalarAt readMatAt rGLWE rGGLWE rGLWESwitchingKey rGLWEAutomorphismKey
+  rGLWEPublicKey rGGLWEToGGSWKey rGLWECompressed rGGLWECompressed rGLWESwitchingKeyCompressed
+  rGLWEAutomorphismKeyCompressed rGGLWEToGGSWKeyCompressed rBlindRotationKey rBlindRotationKeyCompressed in
+/-- **totality, every modelled type**: from a consistent receiver, on every byte string, `read_from`
+returns `ok` or `err` — provided one allocation of 2^37 bytes (2^32 seeds of 32 bytes) is granted.
+FULL STATEMENT (false of the code, `reader_total_counterexample`): the same without `hM`. -/
+theorem reader_total_partial (hM : 2 ^ 37 ≤ M) (ty : String) (r : Rd St Unit) (h : readerOf ty = some r) :
+    NoPanicOn (Keep L M) r := by
+  unfold readerOf at h
+  split at h <;> cases h <;> (first
+    | exact np_readVecAt _ | exact np_readScalarAt _ | exact np_readMatAt _
+    | exact np_rGLWE _ | exact np_rGGLWE _ | exact np_rGLWESwitchingKey _ | exact np_rGLWEAutomorphismKey _
+    | exact np_rGLWEPublicKey _ | exact np_rGGLWEToGGSWKey _ | exact np_rGLWECompressed _
+    | exact np_rGGLWECompressed hM _ | exact np_rGLWESwitchingKeyCompressed hM _ | exact np_rGLWEAutomorphismKeyCompressed hM _
+    | exact np_rGGLWEToGGSWKeyCompressed hM _ | exact np_rBlindRotationKey _ | exact np_rBlindRotationKeyCompressed hM _)
+example : (2 : Nat) ^ 37 ≤ 2 ^ 40 ∧ (readerOf "gglwe_compressed").isSome = true := by decide
+end
+
+/-- a 20-byte stream whose `seed_len` field is 2^32−1 makes `GGLWECompressed::read_from` request 2^37−32
+bytes before anything is validated; with 8 GiB grantable the request fails (the real process aborts:
+replayed by `./check C18`, key `…seed_len-unvalidated-allocation`). -/
+theorem reader_total_counterexample :
+    ¬ (∀ (s : St) (bs : Bytes), s.Inv → (rGGLWECompressed origin s bs).isPanic = false) := by
+  intro h
+  have := h ⟨[0, 0, 0, 0], [⟨1, List.replicate 32 0⟩], [.mat ⟨1, 1, 1, 1, 1, List.replicate 8 0⟩], 2 ^ 33⟩
+    (leBytes 4 16 ++ leBytes 4 8 ++ leBytes 4 1 ++ leBytes 4 1 ++ leBytes 4 (2 ^ 32 - 1)) (by decide)
+  revert this
+  decide +kernel
+
+/-! ### error ⇒ metadata unchanged -/
+
+/- FULL STATEMENT (false of the code): for every modelled reader `r`,
+   `r s bs = .err k s' → s'.meta = s.meta`. -/
+
+/-- `GLWE::read_from` assigns `self.base2k` before the inner read can fail: a 4-byte stream changes
+`base2k` from 12 to 17 and returns an error. -/
+theorem wrapper_err_unchanged_counterexample :
+    ¬ (∀ (s s' : St) (bs : Bytes) (k : String), rGLWE origin s bs = .err k s' → s'.meta = s.meta) := by
+  intro h
+  have := h ⟨[12], [], [.vec ⟨1, 1, 1, 1, List.replicate 8 0⟩], 0⟩ ⟨[17], [], [.vec ⟨1, 1, 1, 1, List.replicate 8 0⟩], 0⟩
+    (leBytes 4 17) "eof" (by decide +kernel)
+  revert this
+  decide +kernel
+
+
+
+/-- the type names whose object contains exactly one HAL layout -/
+def singleLeaf : List String :=
+  ["vec", "scalar", "mat", "glwe", "lwe", "gglwe", "ggsw", "glwe_tensor_key", "glwe_switching_key", "lwe_switching_key",
+   "lwe_to_glwe_key", "glwe_to_lwe_key", "glwe_automorphism_key", "glwe_public_key", "glwe_compressed", "lwe_compressed",
+   "gglwe_compressed", "ggsw_compressed", "glwe_tensor_key_compressed", "glwe_switching_key_compressed",
+   "lwe_switching_key_compressed", "lwe_to_glwe_key_compressed", "glwe_to_lwe_key_compressed",
+   "glwe_automorphism_key_compressed"]
+
+attribute [local irreducible] readVecAt readScalarAt readMatAt rGLWE rGGLWE rGLWESwitchingKey rGLWEAutomorphismKey
+  rGLWEPublicKey rGGLWEToGGSWKey rGLWECompressed rGGLWECompressed rGLWESwitchingKeyCompressed
+  rGLWEAutomorphismKeyCompressed rGGLWEToGGSWKeyCompressed rBlindRotationKey rBlindRotationKeyCompressed in
+/-- what does hold on error for the 24 single-layout types: the HAL layout — its dimension fields **and**
+its buffer — is exactly as before (only wrapper fields and seeds may have been overwritten). -/
+theorem wrapper_err_unchanged_partial (ty : String) (hty : ty ∈ singleLeaf) (r : Rd St Unit) (h : readerOf ty = some r) :
+    ErrKeepL r := by
+  unfold readerOf at h
+  split at h <;> cases h <;> (first
+    | exact ek_readVecAt _ | exact ek_readScalarAt _ | exact ek_readMatAt _
+    | exact ek_rGLWE _ | exact ek_rGGLWE _ | exact ek_rGLWESwitchingKey _ | exact ek_rGLWEAutomorphismKey _
+    | exact ek_rGLWEPublicKey _ | exact ek_rGLWECompressed _
+    | exact ek_rGGLWECompressed _ | exact ek_rGLWESwitchingKeyCompressed _ | exact ek_rGLWEAutomorphismKeyCompressed _
+    | (exfalso; revert hty; decide))
+example : "glwe_switching_key_compressed" ∈ singleLeaf ∧ (readerOf "glwe_switching_key_compressed").isSome = true := by decide
+
+/-- for the `Vec<…>` containers even the HAL dimensions change on error: `GGLWEToGGSWKey::read_from` commits
+element 0 (here `n` 2 → 1) and then fails on element 1. -/
+theorem container_err_unchanged_counterexample :
+    ¬ (∀ (s s' : St) (bs : Bytes) (k : String), rGGLWEToGGSWKey origin s bs = .err k s' → s'.leaves.map Leaf.meta = s.leaves.map Leaf.meta) := by
+  intro h
+  have := h ⟨[2, 8, 1, 8, 1], [], [.mat ⟨2, 1, 1, 1, 1, List.replicate 16 0⟩, .mat ⟨2, 1, 1, 1, 1, List.replicate 16 0⟩], 0⟩
+    ⟨[2, 9, 1, 8, 1], [], [.mat ⟨1, 1, 1, 1, 1, List.replicate 8 5 ++ List.replicate 8 0⟩, .mat ⟨2, 1, 1, 1, 1, List.replicate 16 0⟩], 0⟩
+    (leBytes 8 2 ++ leBytes 4 9 ++ leBytes 4 1 ++ leBytes 8 1 ++ leBytes 8 1 ++ leBytes 8 1 ++ leBytes 8 1 ++ leBytes 8 1 ++ leBytes 8 8 ++ List.replicate 8 5)
+    "eof" (by decide +kernel)
+  revert this
+  decide +kernel
+
+/-! ### the same three facts with the predicates unfolded (what they say about one call) -/
+
+/-- either outcome: consistent before ⇒ consistent after, and no buffer was resized -/
+theorem reader_ok_err_inv (ty : String) (r : Rd St Unit) (h : readerOf ty = some r) (s : St) (bs : Bytes) (hs : s.Inv) :
+    (r s bs).state.Inv ∧ (r s bs).state.leaves.map Leaf.bufLen = s.leaves.map Leaf.bufLen := by
+  have t := reader_post_inv (L := s.leaves.map Leaf.bufLen) (M := s.mem) ty r h
+  unfold Pres at t
+  have k := t s bs ⟨hs, rfl, rfl⟩
+  exact ⟨k.1, k.2.1⟩
+example : St.Inv ⟨[12], [], [.vec ⟨4, 2, 1, 1, List.replicate 64 0⟩], 0⟩ := by decide
+
+theorem reader_never_panics_partial (ty : String) (r : Rd St Unit) (h : readerOf ty = some r) (s : St) (bs : Bytes) (hs : s.Inv)
+    (hm : 2 ^ 37 ≤ s.mem) : (r s bs).isPanic = false := by
+  have t := reader_total_partial (L := s.leaves.map Leaf.bufLen) (M := s.mem) hm ty r h
+  unfold NoPanicOn at t
+  exact t s bs ⟨hs, rfl, rfl⟩
+example : St.Inv ⟨[1, 2, 3, 4], [⟨1, []⟩], [.mat ⟨1, 1, 1, 1, 1, List.replicate 8 0⟩], 2 ^ 37⟩ ∧ (2 : Nat) ^ 37 ≤ 2 ^ 37 := by decide
+
+theorem wrapper_err_layout_unchanged_partial (ty : String) (hty : ty ∈ singleLeaf) (r : Rd St Unit) (h : readerOf ty = some r)
+    (s s' : St) (bs : Bytes) (k : String) (he : r s bs = .err k s') : s'.leaves = s.leaves := by
+  have t := wrapper_err_unchanged_partial ty hty r h
+  unfold ErrKeepL at t
+  exact t s bs k s' he
+example : rGLWE origin ⟨[12], [], [.vec ⟨1, 1, 1, 1, List.replicate 8 0⟩], 0⟩ (leBytes 4 17) = .err "eof" ⟨[17], [], [.vec ⟨1, 1, 1, 1, List.replicate 8 0⟩], 0⟩ := by
   decide +kernel
 
 end C18
